@@ -88,8 +88,8 @@ theorem dnsApplicable_eq (r : NetRule) : dnsApplicable r = isHostLevel r := by
     | true => simp at hc; exact absurd hc h3
 
 theorem hostRule_matches_iff (r : HostRule) (host : Bytes) :
-    r.matches host = true ↔ host ∈ r.hostnames := by
-  unfold HostRule.matches
+    hostRuleMatches r host = true ↔ host ∈ r.hostnames := by
+  unfold hostRuleMatches
   simp only [Bool.or_eq_true, Bool.and_eq_true, decide_eq_true_eq, beq_iff_eq, List.any_eq_true]
   constructor
   · rintro (⟨_, h⟩ | ⟨x, hx, rfl⟩)
